@@ -148,3 +148,155 @@ Proof.
   - rewrite Hd'. exact Hd.
   - exact Ha.
 Qed.
+
+(** instances: the default-install branch (an object without materials) and an object with
+    materials; both calls answer Ok and the second leaves all 25 attributes as they are *)
+Definition gI : geo := mkGeo 6 10 41.
+Example init_idem_instance_defaults :
+  let s := snd (obake gI (init gI)) in
+  o_dirs_in s = None /\
+  fst (oinit_source gI s 1) = ROk /\
+  oinit_source gI (snd (oinit_source gI s 1)) 1 = oinit_source gI s 1.
+Proof. vm_compute. repeat split; reflexivity. Qed.
+Example init_idem_instance_materials :
+  let s := orun gI (init gI) [OpSetBrdf [0; 1; 2; 3; 4; 5] 1 1 4 1 2 false; OpSetAtt 1 1 2; OpBake] in
+  o_dirs_in s <> None /\
+  fst (oinit_source gI s 1) = ROk /\
+  oinit_source gI (snd (oinit_source gI s 1)) 1 = oinit_source gI s 1.
+Proof. vm_compute. repeat split; try reflexivity. discriminate. Qed.
+
+(** ** the three stages keep the configuration fields *)
+Lemma cfg_refl s : cfg_eq s s.
+Proof. constructor; reflexivity. Qed.
+Lemma cfg_sym s s' : cfg_eq s s' -> cfg_eq s' s.
+Proof. intros []. constructor; symmetry; assumption. Qed.
+Lemma cfg_trans s s' s'' : cfg_eq s s' -> cfg_eq s' s'' -> cfg_eq s s''.
+Proof. intros [] []. constructor; etransitivity; eassumption. Qed.
+
+Definition noncfg (f : field) : Prop :=
+  match f with
+  | FVis | FPairs | FFF | FTilde | FP2O | FDist | FE0 | FEtc | FSource | FSourceVis | FC | FDt | FDur => True
+  | _ => False
+  end.
+
+Lemma cfg_put_l f v s s' : noncfg f -> cfg_eq s s' -> cfg_eq (put f v s) s'.
+Proof. intros Hf []. destruct f; try contradiction Hf; constructor; assumption. Qed.
+
+Ltac cfg_puts := cbn [snd]; repeat (apply cfg_put_l; [exact I|]); apply cfg_refl.
+Ltac dmatch := repeat match goal with |- context [match ?x with _ => _ end] => destruct x end.
+
+(** bake_geometry never touches a configuration field, whatever its class *)
+Lemma bake_keeps_cfg g s : cfg_eq (snd (obake g s)) s.
+Proof. unfold obake. cbv zeta. dmatch; cfg_puts. Qed.
+
+(** calculate_energy_exchange never touches a configuration field *)
+Lemma exch_keeps_cfg g s tid ns order b : cfg_eq (snd (oexchange g s tid ns order b)) s.
+Proof. unfold oexchange. cbv zeta. dmatch; cfg_puts. Qed.
+
+(** init_source_energy keeps the configuration fields when it has no default to install *)
+Lemma init_keeps_cfg g s src :
+  o_dirs_in s <> None -> o_att s <> None -> cfg_eq (snd (oinit_source g s src)) s.
+Proof.
+  intros Hd Ha. rewrite init_factor.
+  set (s1 := put FSource (src_desc src) s).
+  assert (C0 : cfg_eq s1 s) by (apply cfg_put_l; [exact I|apply cfg_refl]).
+  clearbody s1.
+  unfold dflt_brdf.
+  destruct (o_dirs_in s1) eqn:E1; [|rewrite (ce_di _ _ C0) in E1; contradiction].
+  unfold after_dflt, dflt_att.
+  destruct (o_att s1) eqn:E2; [|rewrite (ce_at _ _ C0) in E2; contradiction].
+  unfold finish. cbv zeta.
+  dmatch; cbn [snd]; repeat (apply cfg_put_l; [exact I|]); exact C0.
+Qed.
+
+(** [final_eq] compares all 25 attributes *)
+Lemma final_eq_eq s s' : final_eq s s' -> s = s'.
+Proof.
+  intros [[[[H1 H2 H3 H4 H5 H6 H7 H8 H9 H10 H11 H12] Hv Hp Hf Ht Ho] Hd He Hs Hsv] Hetc Hc Hdt Hdur].
+  destruct s, s'. cbn in *. subst. reflexivity.
+Qed.
+
+(** ** the tail run twice *)
+Definition tail_state (g : geo) (s : ostate) (src tid ns order : nat) : ostate :=
+  snd (oexchange g (snd (oinit_source g (snd (obake g s)) src)) tid ns order true).
+
+Lemma orun_tail g s src tid ns order : orun g s (tail src tid ns order) = tail_state g s src tid ns order.
+Proof.
+  unfold orun, tail, tail_state. cbn [fold_left ostep].
+  destruct (obake g s) as [c1 s1]. cbn [ostate_of fst snd].
+  destruct (oinit_source g s1 src) as [c2 s2]. cbn [ostate_of fst snd].
+  destruct (oexchange g s2 tid ns order true) as [c3 s3]. reflexivity.
+Qed.
+
+Lemma tail_classes_tail g s src tid ns order :
+  tail_classes g s (tail src tid ns order) =
+  [fst (obake g s); fst (oinit_source g (snd (obake g s)) src);
+   fst (oexchange g (snd (oinit_source g (snd (obake g s)) src)) tid ns order true)].
+Proof.
+  unfold tail_classes, tail. cbn [otrace map ostep].
+  destruct (obake g s) as [c1 s1]. cbn [ostate_of oclass_of fst snd].
+  destruct (oinit_source g s1 src) as [c2 s2]. cbn [ostate_of oclass_of fst snd].
+  destruct (oexchange g s2 tid ns order true) as [c3 s3]. reflexivity.
+Qed.
+
+Lemma rok_true c : rok c = true -> c = ROk.
+Proof. destruct c; cbn; intros E; try discriminate E; reflexivity. Qed.
+
+(** When the object already has its materials and an attenuation (so that init_source_energy has no
+    default to install), a successful tail  bake; init_source src; exchange(recalculate)  run a
+    second time answers Ok three times again and ends in the SAME state (all 25 attributes). *)
+Theorem tail_twice g s src tid ns order :
+  o_dirs_in s <> None -> o_att s <> None ->
+  forallb rok (tail_classes g s (tail src tid ns order)) = true ->
+  tail_classes g (orun g s (tail src tid ns order)) (tail src tid ns order) = [ROk; ROk; ROk] /\
+  orun g s (tail src tid ns order ++ tail src tid ns order) = orun g s (tail src tid ns order).
+Proof.
+  intros Hd Ha Hok.
+  assert (E : orun g s (tail src tid ns order ++ tail src tid ns order) =
+              orun g (orun g s (tail src tid ns order)) (tail src tid ns order))
+    by (unfold orun; apply fold_left_app).
+  rewrite E, !orun_tail, tail_classes_tail. rewrite tail_classes_tail in Hok.
+  cbn [forallb] in Hok.
+  apply andb_prop in Hok. destruct Hok as [K1 Hok].
+  apply andb_prop in Hok. destruct Hok as [K2 Hok].
+  apply andb_prop in Hok. destruct Hok as [K3 _].
+  apply rok_true in K1. apply rok_true in K2. apply rok_true in K3.
+  set (s1 := snd (obake g s)) in *.
+  set (s2 := snd (oinit_source g s1 src)) in *.
+  assert (C1 : cfg_eq s1 s) by apply bake_keeps_cfg.
+  assert (C2 : cfg_eq s2 s1).
+  { apply init_keeps_cfg.
+    - rewrite (ce_di _ _ C1). exact Hd.
+    - rewrite (ce_at _ _ C1). exact Ha. }
+  unfold tail_state. fold s1. fold s2.
+  set (s3 := snd (oexchange g s2 tid ns order true)) in *.
+  assert (C3 : cfg_eq s3 s) by
+    (eapply cfg_trans; [apply exch_keeps_cfg|]; eapply cfg_trans; eassumption).
+  destruct (bake_cfg g s3 s C3) as [B1 B2].
+  rewrite K1 in B1. specialize (B2 B1). fold s1 in B2.
+  destruct (init_cfg g _ _ src B2) as [I1 I2].
+  fold s2 in I1, I2. rewrite K2 in I1. specialize (I2 I1).
+  destruct (exch_cfg g _ _ tid ns order I2) as [X1 X2].
+  fold s3 in X1, X2. rewrite K3 in X1. specialize (X2 X1).
+  split.
+  - rewrite B1, I1, X1. reflexivity.
+  - apply final_eq_eq. exact X2.
+Qed.
+
+(** The attenuation proviso is needed in the MODEL: with materials but without an attenuation the
+    first bake records "no attenuation" in the provenance of form_factors_tilde, init_source_energy
+    then installs the zero attenuation, and the second bake records that one.  (Numerically both
+    mean exp(-0 d) = 1: this is a difference of provenance, not a finding about the numbers; the
+    materials proviso is the finding default_install_rebake, see
+    Instances/ObjectExamples.default_brdf_refuted.) *)
+Lemma tail_twice_needs_att :
+  exists g s src tid ns order,
+    o_dirs_in s <> None /\ o_att s = None /\
+    tail_classes g s (tail src tid ns order ++ tail src tid ns order) = [ROk; ROk; ROk; ROk; ROk; ROk] /\
+    o_tilde (orun g s (tail src tid ns order ++ tail src tid ns order)) <>
+    o_tilde (orun g s (tail src tid ns order)).
+Proof.
+  exists gI, (orun gI (init gI) [OpSetBrdf [0; 1; 2; 3; 4; 5] 1 1 4 1 2 false]), 1, 1, 20, 2.
+  split; [vm_compute; discriminate|]. split; [vm_compute; reflexivity|].
+  split; [vm_compute; reflexivity|]. vm_compute. intros H. discriminate H.
+Qed.
